@@ -21,20 +21,22 @@ def tuples(nmax, frags, ok=lambda n, a, b: True, nmin=0):
                 if ok(n, a, b): out.append((n, a, b))
     return out
 
-def absorb(name, hfile, nmax, tier, srcs, funcs, stub_files=('stubs/belt_block_uf_e.c',), stubs=('belt_block_uf_e',), defs=(), core=BELT_CORE + [BLOCK], blk=16, lens=None):
+def absorb(name, hfile, nmax, tier, srcs, funcs, stub_files=('stubs/belt_block_uf_e.c',), stubs=('belt_block_uf_e',), defs=(), core=BELT_CORE + [BLOCK], blk=16, lens=None, only_a=None):
     frags = 2 if tier == 'quick' else 3
     inst = []
     for (n, a, b) in tuples(nmax, frags):
         if lens is not None and n not in lens: continue
+        if only_a is not None and a not in only_a: continue
         for g in ((0, 0), (1, 1)) if frags == 3 else ((0, 0), (1, 0)):
             inst.append(('h_%d_%d_%d_%d%d' % (n, a, b, g[0], g[1]), '%d, %d, %d, %d, %d, 32' % (n, a, b, g[0], g[1])))
     return Ob(name='c10_%s_n%d' % (name, nmax), harness='harness/C10/' + hfile, defs=['MAXN=%d' % nmax] + list(defs), instances=inst,
               srcs=core + srcs, stub_files=list(stub_files), unwind=max(nmax, 40) + 8, timeout=300, mem_gb=6, cbmc_extra=['--max-field-sensitivity-array-size', '512'], unwind_rules=[(r'^(belt|bash|brng)\w+Step\w*\.\d+$', nmax // blk + 2)], funcs=funcs, stubs=list(stubs),
               bound=('message lengths %s' % sorted(lens) if lens is not None else '') + ' every message length 0..%d x every split into %d consecutive fragments (empty ones included) x Get at the boundaries or not: %d concrete length tuples, each decided for ALL data/key/iv values; state relocated at every boundary' % (nmax, frags, len(inst)))
 
-def stream(name, hfile, nmax, tier, srcs, funcs, ok=lambda n, a, b: True, note='', defs=(), blk=16):
+def stream(name, hfile, nmax, tier, srcs, funcs, ok=lambda n, a, b: True, note='', defs=(), blk=16, lens=None):
     frags = 2 if tier == 'quick' else 3
-    inst = [('h_%d_%d_%d' % t, '%d, %d, %d, 32' % t) for t in tuples(nmax, frags, ok)]
+    inst = [('h_%d_%d_%d' % t, '%d, %d, %d, 32' % t) for t in tuples(nmax, frags, ok) if lens is None or t[0] in lens]
+    if lens is not None: note += ' (lengths %s only in the quick tier)' % sorted(lens)
     return Ob(name='c10_%s_n%d' % (name, nmax), harness='harness/C10/' + hfile, defs=['MAXN=%d' % nmax] + list(defs), instances=inst,
               srcs=BELT_CORE + [BLOCK] + srcs, stub_files=UF, unwind=max(nmax, 40) + 8, timeout=300, mem_gb=6, cbmc_extra=['--max-field-sensitivity-array-size', '512'], unwind_rules=[(r'^(belt|bash|brng)\w+Step\w*\.\d+$', nmax // blk + 2)], funcs=funcs, stubs=['belt_block_uf'],
               bound='every data length <= %d x every admissible split into %d fragments%s: %d concrete length tuples, each decided for ALL data/key/iv values; state relocated at every boundary' % (nmax, frags, note, len(inst)))
@@ -45,16 +47,17 @@ def obligations(tier):
     B = 'src/crypto/belt/'
     n16 = 18 if q else 24
     n32 = 34 if q else 40
-    obs.append(absorb('beltMAC', 'belt_mac.c', n16, tier, [B + 'belt_mac.c'], ['beltMACStart', 'beltMACStepA', 'beltMACStepG']))
+    QL = set([0, 1, 15, 16, 17, 18]) if q else None
+    obs.append(absorb('beltMAC', 'belt_mac.c', n16, tier, [B + 'belt_mac.c'], ['beltMACStart', 'beltMACStepA', 'beltMACStepG'], lens=QL))
     # belt-hash / HMAC instances cost 8 s / 40 s each (3 uninterpreted cipher calls per compression):
     # quick keeps the lengths around the 32-octet block boundary, thorough the complete range
     obs.append(absorb('beltHash', 'belt_hash.c', n32, tier, [B + 'belt_hash.c', B + 'belt_compr.c'], ['beltHashStart', 'beltHashStepH', 'beltHashStepG', 'beltCompr', 'beltCompr2'], blk=32,
-                      lens=set([0, 1, 31, 32, 33, 34]) if q else None))
+                      lens=set([1, 33]) if q else None))
     obs.append(absorb('beltHMAC', 'belt_hmac.c', n32, tier, [B + 'belt_hmac.c', B + 'belt_hash.c', B + 'belt_compr.c'], ['beltHMACStart', 'beltHMACStepA', 'beltHMACStepG'], blk=32,
-                      lens=set([33]) if q else set(range(0, 36))))
-    obs.append(stream('beltCFB_E', 'belt_cfb.c', n16, tier, [B + 'belt_cfb.c'], ['beltCFBStart', 'beltCFBStepE']))
-    obs.append(stream('beltCFB_D', 'belt_cfb.c', n16, tier, [B + 'belt_cfb.c'], ['beltCFBStart', 'beltCFBStepD'], defs=['DECR']))
-    obs.append(stream('beltCTR', 'belt_ctr.c', n16, tier, [B + 'belt_ctr.c'], ['beltCTRStart', 'beltCTRStepE']))
+                      lens=set([33]) if q else set(range(0, 36)), only_a=(0, 1, 16, 32, 33) if q else None))
+    obs.append(stream('beltCFB_E', 'belt_cfb.c', n16, tier, [B + 'belt_cfb.c'], ['beltCFBStart', 'beltCFBStepE'], lens=QL))
+    obs.append(stream('beltCFB_D', 'belt_cfb.c', n16, tier, [B + 'belt_cfb.c'], ['beltCFBStart', 'beltCFBStepD'], defs=['DECR'], lens=QL))
+    obs.append(stream('beltCTR', 'belt_ctr.c', n16, tier, [B + 'belt_ctr.c'], ['beltCTRStart', 'beltCTRStepE'], lens=QL))
     cts = lambda n, a, b: a % 16 == 0 and b % 16 == 0 and n - a - b >= 16
     nb = 50 if q else 66
     note = ' (belt.h: whole blocks, a ragged CTS tail only in the last call, every call >= 16 octets)'
@@ -68,16 +71,30 @@ def obligations(tier):
     # ---- brng generators, DWP/CHE with Get, bash hash and automaton
     BR = CORE + ['src/crypto/belt/belt_lcl.c', BLOCK, B + 'belt_hash.c', B + 'belt_compr.c', B + 'belt_hmac.c', 'src/crypto/brng.c']
     X = ['--max-field-sensitivity-array-size', '2048']
-    lens = (0, 1, 32) if q else tuple(range(0, 41))
+    lens = (1, 32) if q else tuple(range(0, 41))
     inst = [('h_%d_%d_%d' % (n, a, n - a if q else b_), '%d, %d, %d, 32' % (n, a, 0 if q else b_)) for n in lens for a in (sorted(set(x for x in (0, 1, 5, 31, 32, n) if x <= n)) if q else range(0, n + 1)) for b_ in ([0] if q else range(0, n - a + 1, 7))]
     inst = [(nm + '_%d' % i, args) for i, (nm, args) in enumerate(inst)]
     obs.append(Ob(name='c10_brngCTR', harness='harness/C10/brng_ctr.c', instances=inst, replay='asan', srcs=BR, stub_files=['stubs/belt_block_uf_e.c'], stubs=['belt_block_uf_e'],
                   unwind=60, unwind_rules=[(r'^(belt|brng)\w+Step\w*\.\d+$', 4), (r'^brngBlockInc\.0$', 5), (r'^vp_relocate\.\d$', 300)], timeout=600, mem_gb=16, cbmc_extra=X,
                   funcs=['brngCTRStart', 'brngCTRStepR'], bound='request lengths %s x every split point (quick: 2 fragments) = %d length tuples, key/iv symbolic, output buffers zero-filled, state relocated at every boundary' % (list(lens), len(inst))))
     inst2 = [('h_%d_%d_%d' % (n, a, iv), '%d, %d, 0, %d' % (n, a, iv)) for n in ((1,) if q else (0, 1, 31, 32, 33, 40)) for a in ((0, 1) if q else range(0, n + 1, 1 if n < 8 else 8)) for iv in ((16, 72) if q else (0, 16, 64, 65, 72))]
-    obs.append(Ob(name='c10_brngHMAC', harness='harness/C10/brng_hmac.c', instances=inst2, replay='asan', srcs=BR, stub_files=['stubs/belt_block_uf_e.c'], stubs=['belt_block_uf_e'],
-                  unwind=90, unwind_rules=[(r'^(belt|brng)\w+Step\w*\.\d+$', 5), (r'^vp_relocate\.\d$', 300)], timeout=900, mem_gb=16, cbmc_extra=X,
-                  funcs=['brngHMACStart', 'brngHMACStepR'], bound='%d (request length, split point, iv length) tuples incl. iv_len 72 > 64 (state keeps a pointer to the caller iv), state relocated at every boundary' % len(inst2)))
+    obs.append(Ob(name='c10_brngCTR_reloc', harness='harness/C10/brng_ctr.c', defs=['NOEQ'], replay='asan',
+                  instances=[('h_%d_%d' % t, '%d, %d, 0, 32' % t) for t in ((1, 0), (5, 2))],
+                  srcs=BR, stub_files=['harness/C07/belt_block_havoc.c'], stubs=['belt_block_havoc (arbitrary function)'],
+                  unwind=90, unwind_rules=[(r'^(belt|brng)\w+Step\w*\.\d+$', 5), (r'^brngBlockInc\.0$', 5), (r'^vp_relocate\.\d$', 300)], timeout=600, mem_gb=8, cbmc_extra=X,
+                  funcs=['brngCTRStart', 'brngCTRStepR'], bound='2 (request length, split) tuples; state relocated (old object overwritten and freed) at every boundary; memory checks only'))
+    if q:
+        # quick: relocation safety only (cipher = arbitrary in-place function, no equality): a state that still refers to
+        # its old location dereferences a freed object; the functional chunking equality costs 500 s per instance (thorough)
+        obs.append(Ob(name='c10_brngHMAC_reloc', harness='harness/C10/brng_hmac.c', defs=['NOEQ'], replay='asan',
+                      instances=[('h_%d_%d_%d' % t, '%d, %d, 0, %d' % t) for t in ((1, 0, 16), (5, 2, 72))],
+                      srcs=BR, stub_files=['harness/C07/belt_block_havoc.c'], stubs=['belt_block_havoc (arbitrary function)'],
+                      unwind=90, unwind_rules=[(r'^(belt|brng)\w+Step\w*\.\d+$', 5), (r'^vp_relocate\.\d$', 300)], timeout=600, mem_gb=8, cbmc_extra=X,
+                      funcs=['brngHMACStart', 'brngHMACStepR'], bound='2 (request length, split, iv length) tuples (iv_len 16 <= 64 and 72 > 64); state relocated (old object overwritten and freed) at every boundary; memory checks only'))
+    else:
+        obs.append(Ob(name='c10_brngHMAC', harness='harness/C10/brng_hmac.c', instances=inst2, replay='asan', srcs=BR, stub_files=['stubs/belt_block_uf_e.c'], stubs=['belt_block_uf_e'],
+                      unwind=90, unwind_rules=[(r'^(belt|brng)\w+Step\w*\.\d+$', 5), (r'^vp_relocate\.\d$', 300)], timeout=900, mem_gb=16, cbmc_extra=X,
+                      funcs=['brngHMACStart', 'brngHMACStepR'], bound='%d (request length, split point, iv length) tuples incl. iv_len 72 > 64 (state keeps a pointer to the caller iv), state relocated at every boundary' % len(inst2)))
     AE = BELT_CORE + [BLOCK, B + 'belt_dwp.c', B + 'belt_che.c', B + 'belt_ctr.c']
     shapes = [(nh, a, nd, b, g1, g2) for nh in ((0, 17, 20) if q else (0, 1, 5, 16, 17, 20, 32, 33)) for a in sorted(set([0, nh // 2] if q else [0, nh // 2, nh])) for nd in ((0, 7, 16) if q else (0, 1, 7, 16, 17, 21, 33)) for b in sorted(set([nd // 2] if q else [0, nd // 2, nd]))
               for (g1, g2) in (((1, 1),) if q else ((0, 0), (1, 1)))]
@@ -88,17 +105,17 @@ def obligations(tier):
                       funcs=['Start', 'StepI', 'StepE', 'StepA', 'StepG'], bound='%d (open length, split, critical length, split, Get at boundaries) tuples; state relocated at both boundaries' % len(shapes)))
     BH = CORE + ['src/crypto/bash/bash_hash.c', 'src/crypto/bash/bash_prg.c']
     rate = 128
-    ns = (1, rate, rate + 1, 2 * rate) if q else (0, 1, 2, rate - 1, rate, rate + 1, 130, 2 * rate - 1, 2 * rate, 2 * rate + 1)
+    ns = (rate, 2 * rate) if q else (0, 1, 2, rate - 1, rate, rate + 1, 130, 2 * rate - 1, 2 * rate, 2 * rate + 1)
     pi = []
     for n in ns:
-        for a in sorted(set(x for x in (0, 1, 100, rate - 1, rate, n - 1, n, n // 2) if 0 <= x <= n)):
+        for a in sorted(set(x for x in ((0, 100, rate) if q else (0, 1, 100, rate - 1, rate, n - 1, n, n // 2)) if 0 <= x <= n)):
             for (m, b_) in ((33, 5),) if q else ((0, 0), (1, 1), (33, 5), (33, 32), (40, 0), (40, 40)):
                 pi.append(('h_%d_%d_%d_%d' % (n, a, m, b_), '%d, %d, %d, %d, 32' % (n, a, m, b_)))
     obs.append(Ob(name='c10_bashPrg', harness='harness/C10/bash_prg.c', defs=['LEVEL=256', 'CAP=2', 'MAXN=258'], instances=pi, srcs=BH, stub_files=['stubs/bashf_uf.c'], stubs=['bashf_uf'],
                   unwind=270, unwind_rules=[(r'^bashPrg\w+\.\d+$', 5)], timeout=600, mem_gb=10, cbmc_extra=X,
                   funcs=['bashPrgStart', 'bashPrgAbsorbStep', 'bashPrgSqueezeStep', 'bashPrgAbsorb', 'bashPrgSqueeze'],
                   bound='l=256, d=2 (rate 128), keyed: %d (absorb length, split, squeeze length, split) tuples around the rate boundary; not relocated (bash.h does not declare the state copyable)' % len(pi)))
-    bh = [('h_%d_%d_%d_%d%d' % (n, a, n - a, g, 0), '%d, %d, %d, %d, 0, 32' % (n, a, n - a, g)) for n in ((0, 1, 127, 128, 129) if q else (0, 1, 64, 127, 128, 129, 130)) for a in sorted(set(x for x in (0, 1, 127, 128, n // 2, n) if x <= n)) for g in (0, 1)]
+    bh = [('h_%d_%d_%d_%d%d' % (n, a, n - a, g, 0), '%d, %d, %d, %d, 0, 32' % (n, a, n - a, g)) for n in ((1, 128, 129) if q else (0, 1, 64, 127, 128, 129, 130)) for a in sorted(set(x for x in ((1, 128) if q else (0, 1, 127, 128, n // 2, n)) if x <= n)) for g in ((1,) if q else (0, 1))]
     obs.append(Ob(name='c10_bashHash256', harness='harness/C10/bash_hash.c', defs=['LEVEL=256', 'MAXN=130'], instances=bh, srcs=BH, stub_files=['stubs/bashf_uf.c'], stubs=['bashf_uf'],
                   unwind=140, unwind_rules=[(r'^bashHash\w+\.\d+$', 4)], timeout=600, mem_gb=10, cbmc_extra=X,
                   funcs=['bashHashStart', 'bashHashStepH', 'bashHashStepG'], bound='bash256 (rate 128): %d (length, split, Get) tuples around the rate boundary' % len(bh)))
